@@ -364,7 +364,7 @@ theorem C09_read_stable {P : Input} {w0 : Cache.World} {F : Option Int} {c0 : In
     {cfg : Engine.Cfg} {s : Engine.St} (h : Engine.Reach (engineGraph P) cfg s) {u : Nat}
     (hb : code (.read u) ∈ s.begun) :
     ((execOrder P (initX w0 c0) s.okd).w.content u).getD (.missing u) = Cache.FS P.toLPlan w0 u :=
-  read_value S h (xinv_reach S h) hb
+  read_value S h (fun _ hh => hh) (okd_begun h) (xinv_reach S h) hb
 
 open Uberjob.Exec in
 /-- A begun user call finds the from-scratch values of its arguments in the result slots of its argument nodes — the
@@ -377,7 +377,7 @@ theorem C09_args_stable {P : Input} {w0 : Cache.World} {F : Option Int} {c0 : In
     Cache.V.app j ((argSrcs (physFinal P) (.orig j)).map ((execOrder P (initX w0 c0) s.okd).get P)) =
       Cache.FS P.toLPlan w0 j := by
   have I := xinv_reach S h
-  exact ⟨by rw [argSrcs_final S.wf (begun_built S h I hb).1, argSrcs_built], orig_value S h I hb hs⟩
+  exact ⟨by rw [argSrcs_final S.wf (begun_built S h (fun _ hh => hh) (okd_begun h) I hb).1, argSrcs_built], orig_value S h (fun _ hh => hh) (okd_begun h) I hb hs⟩
 
 open Uberjob.Exec in
 /-- A begun write node finds the from-scratch value of its stored value in the slot of the value's own call, and that is
@@ -389,8 +389,8 @@ theorem C09_write_input_stable {P : Input} {w0 : Cache.World} {F : Option Int} {
     (execOrder P (initX w0 c0) s.okd).get P (.orig i) = Cache.FS P.toLPlan w0 i ∧
     Cache.rawNow P.toLPlan (execOrder P (initX w0 c0) s.okd).w i = Cache.FS P.toLPlan w0 i := by
   have I := xinv_reach S h
-  obtain ⟨hri, hst⟩ := write_node_reg S.wf (begun_built S h I hb).2
-  exact ⟨write_arg_value S h I hb hri hst, rawNow_value S h I hb hri⟩
+  obtain ⟨hri, hst⟩ := write_node_reg S.wf (begun_built S h (fun _ hh => hh) (okd_begun h) I hb).2
+  exact ⟨write_arg_value S h (fun _ hh => hh) (okd_begun h) I hb hri hst, rawNow_value S h (fun _ hh => hh) (okd_begun h) I hb hri⟩
 
 /-! ### Non-vacuity -/
 
